@@ -28,7 +28,8 @@ pub trait Component: Sized {
 impl<T: Component> MaskedStorage<T> {
     // representation invariant: the mask is exactly the set of indices holding a value
     pub open spec fn wf(&self) -> bool {
-        forall|i: Index| #![trigger self.mask@.contains(i)] #![trigger self.inner.has(i)] self.mask@.contains(i) <==> self.inner.has(i)
+        &&& self.inner.us_wf()
+        &&& forall|i: Index| #![trigger self.mask@.contains(i)] #![trigger self.inner.has(i)] self.mask@.contains(i) <==> self.inner.has(i)
     }
     // the storage as a plain map from index to component (C04)
     pub open spec fn view(&self) -> Map<Index, T> {
